@@ -240,7 +240,7 @@ def gen_valid(chk):
         spec['src'] = 'ipn:%d.%d' % (val, val)
         cases.append(('boundary', bg.fill_crc(spec)))
     # big payloads (BTSD length heads of 3 and 5 octets); the model side is compared through digests (big_suite)
-    for size in ([4000, 65536] if chk.quick() else [4000, 65535, 65536, 65537, 200000]):
+    for size in ([700, 4000] if chk.quick() else [4000, 65535, 65536, 65537]):
         cases.append(('big', bg.gen_bundle(rng, payload_sizes=(size,), admin=False, n_ext=1, **safe)))
     for _ in range(400 if chk.quick() else 20000):
         cases.append(('random', bg.gen_bundle(rng, **safe)))
@@ -460,43 +460,92 @@ Definition view_fun := (fun tb : N * bytes => let (t, bs) := tb in
   if (t =? 6)%N then match decode_prev_node bs with Some e => [[fst (ren_eid e)]; snd (ren_eid e)] | None => [] end
   else if (t =? 7)%N then match decode_bundle_age bs with Some n => [[n]] | None => [] end
   else match decode_hop_count bs with Some (l, c) => [[l; c]] | None => [] end).
-Definition run_case (p : bundle * bytes) :=
-  let (b, bs) := p in
-  match run_encode b with
-  | (o1, o2, fl) =>
-      (o1, (if bytes_eqb o1 o2 then [] else [o2]), fl,
-       match run_decode bs with
-       | Some (rb, r, fl') => [(rb, (if bytes_eqb r bs then [] else [r]), fl')]
-       | None => []
-       end)
+(* Decoder side.  bs: octets; db: what the implementation decoded (0 or 1 bundle); dr: what it re-encoded.
+   Result: status 0 both reject / 1 both decode / 2 only the model decodes / 3 only the implementation decodes,
+   [fields equal; re-encoding equal; wf_bundleb; impl_guardb; rfc9171_extrab], and - only on a difference -
+   the model's decoded fields and re-encoding.  Printing long octet lists dominates the cost, so equal
+   values are compared inside Coq and not printed. *)
+Definition dec_case (bs : bytes) (db : list bundle) (dr : bytes) :=
+  match decode_bundle bs, db with
+  | None, [] => (0, @nil bool, @nil (list bytes))
+  | None, _ :: _ => (3, [], [])
+  | Some b', [] => (2, [], [[impl_encode_bundle b']])
+  | Some b', x :: _ =>
+      let r := impl_encode_bundle b' in
+      let same := bundle_eqb_items b' x in
+      let samer := bytes_eqb r dr in
+      (1, [same; samer; wf_bundleb b'; impl_guardb b'; rfc9171_extrab b'],
+       if same && samer then [] else [[encode_bundle b'; r]])
+  end.
+(* Encoder side.  e1: bytes(Bundle) with the given CRC octets, e2: after update_all_crc. *)
+Definition run_case (p : bundle * bytes * (bytes * bytes) * (list bundle * bytes)) :=
+  match p with
+  | (b, bs, (e1, e2), (db, dr)) =>
+      let o1 := impl_encode_bundle b in
+      let o2 := encode_bundle (with_crc_bundle (impl_norm_bundle b)) in
+      ([bytes_eqb o1 e1; bytes_eqb o2 e2; bytes_eqb o1 o2; wf_bundleb b; impl_guardb b; rfc_admin_ok b; rfc9171_extrab b],
+       (if bytes_eqb o1 e1 then [] else [o1]) ++ (if bytes_eqb o2 e2 then [] else [o2]),
+       dec_case bs db dr)
   end.
 '''
 
 
+def coq_decoded(obs):
+    ''' (db, dr) of dec_case from the implementation's observation of Bundle(octets). '''
+    dec = obs['dec']
+    if not dec['ok']:
+        return ('(@nil bundle)', '(@nil N)', 'reject')
+    try:
+        term = bg.coq_bundle(_model_typed(dec['spec']))
+        reenc = coq_octets(bytes.fromhex(dec['reenc']))
+    except Exception:
+        # decoded to values outside the model's types (negative integers, null BTSD, ...) or cannot re-encode
+        return ('(@nil bundle)', '(@nil N)', 'untyped')
+    return ('[%s]' % term, reenc, 'typed')
+
+
+def _model_typed(spec):
+    def uint(val):
+        if not (isinstance(val, int) and not isinstance(val, bool) and val >= 0):
+            raise ValueError('not a uint')
+        return val
+    for key in ('version', 'flags', 'crc_type', 'time', 'seq', 'lifetime'):
+        uint(spec[key])
+    for key in ('dest', 'src', 'report_to'):
+        if not isinstance(spec[key], str) or spec[key][:4] not in ('dtn:', 'ipn:') or spec[key] == 'ipn:':
+            raise ValueError('EID')
+    if spec['frag'] is not None:
+        [uint(val) for val in spec['frag']]
+    for blk in spec['blocks']:
+        for key in ('type', 'num', 'flags', 'crc_type'):
+            uint(blk[key])
+        if blk['data'] is None:
+            raise ValueError('BTSD')
+    return spec
+
+
 def run_streams(chk, cases, pending, shared):
     ''' enc/dec correspondence + oracle over (label, spec) cases.
-    :return: (agree_enc, agree_dec, first disagreement text) '''
+    :return: (disagreements of the encoder side, of the decoder side) '''
     impl = []
+    terms = []
     for (label, spec) in cases:
         raw = bg.encode(spec)
-        impl.append(dict(enc=impl_encode_modes(spec), dec=impl_decode(raw), raw=raw))
+        obs = dict(enc=impl_encode_modes(spec), dec=impl_decode(raw), raw=raw)
+        impl.append(obs)
+        (db, dr, obs['dec_kind']) = coq_decoded(obs)
+        given = obs['enc'][0]
+        updated = obs['enc'][1]
+        terms.append('(run_case (%s, %s, (%s, %s), (%s, %s)))' % (
+            bg.coq_bundle(spec), bg.coq_encoded(spec),
+            coq_octets(bytes.fromhex(given)) if not given.startswith('raise:') else '(@nil N)',
+            coq_octets(bytes.fromhex(updated)) if not updated.startswith('raise:') else '(@nil N)', db, dr))
     shared['impl'] = impl
     tick(chk, 'impl side of %d cases' % len(cases))
-    both = yield ['(run_case (%s, %s))' % (bg.coq_bundle(spec), bg.coq_encoded(spec)) for (_l, spec) in cases]
-    enc_model = []
-    dec_model = []
-    for ((o1, o2, flags, dec), obs) in zip(both, impl):
-        enc_model.append((o1, (o2[0] if o2 else o1), flags))
-        if not dec:
-            dec_model.append(None)
-        else:
-            val = list(dec[0])
-            val[5] = val[5][0] if val[5] else list(obs['raw'])
-            dec_model.append(('Some', tuple(val)))
-    tick(chk, 'coq enc+dec')
+    both = yield terms
     bad_enc = []
     bad_dec = []
-    for ((label, spec), obs, menc, mdec) in zip(cases, impl, enc_model, dec_model):
+    for ((label, spec), obs, (eflags, ediag, mdec)) in zip(cases, impl, both):
         ident = hashlib.sha1(json.dumps(bg.strip_views(spec), sort_keys=True).encode()).hexdigest()
         chk.case(ident, nontrivial=nontrivial(spec),
                  sample=dict(stream=label, spec=bg.strip_views(spec), octets=obs['raw'].hex()) if len(obs['raw']) < 200 else None)
@@ -514,9 +563,8 @@ def run_streams(chk, cases, pending, shared):
             sig = classify(spec) or ('C02 / %s of a well-formed bundle (%s)' % (probs[0][0], label.split(':')[0]))
             what = '%s [%s]' % (probs[0][1], '; '.join(kind for (kind, _t) in probs))
             report(chk, pending, sig, what, dict(kind='spec', spec=spec))
-        # --- model vs implementation
-        (m_oct, m_oct_crc, m_flags) = menc
-        m_hex = bytes(m_oct).hex()
+        # --- model vs implementation: encoder
+        (eq_given, eq_updated, crc_same, m_wf, m_guard, _m_rfc_admin, _m_extra) = eflags
         typed = any((blk.get('view') or {}).get('kind') in ('prev_node', 'age', 'hop', 'admin') for blk in spec['blocks'])
         for ((via, upd), got) in zip(MODES, obs['enc']):
             if via and not typed:
@@ -526,27 +574,27 @@ def run_streams(chk, cases, pending, shared):
                 if classify(spec) != SIG_REASON:
                     bad_enc.append('%s: building via_payload=%s update_crc=%s raises %s' % (label, via, upd, got))
                 continue
-            want_model = bytes(m_oct_crc).hex() if upd else m_hex
-            if got != want_model:
-                bad_enc.append('%s: (via_payload=%s update_crc=%s) impl %s model %s' % (label, via, upd, got[:120], want_model[:120]))
-        if bytes(m_oct_crc).hex() != m_hex and not probs:
+            if via and got != obs['enc'][1 if upd else 0]:
+                bad_enc.append('%s: typed payload objects encode differently from BTSD octets' % label)
+            if not via and not (eq_updated if upd else eq_given):
+                bad_enc.append('%s: (update_crc=%s) impl %s model %s' % (label, upd, got[:120], [bytes(o).hex()[:120] for o in ediag]))
+        if not crc_same and not probs:
             bad_enc.append('%s: model-computed CRCs differ from the CRCs of the independent encoder' % label)
-        if not m_flags[0]:
+        if not m_wf:
             bad_enc.append('%s: generated bundle is not wf_bundle in the model' % label)
-        if mdec is None:
-            if obs['dec']['ok']:
-                bad_dec.append('%s: model rejects, implementation decodes' % label)
+        # --- model vs implementation: decoder
+        (status, dflags, ddiag) = mdec
+        if status == 0:
+            pass
+        elif status == 2:
+            bad_dec.append('%s: model decodes, implementation %s' % (label, obs['dec'].get('exc', 'yields values outside the model types')))
+        elif status == 3:
+            bad_dec.append('%s: model rejects, implementation decodes' % label)
         else:
-            (_tag, val) = mdec
-            if not obs['dec']['ok']:
-                bad_dec.append('%s: model decodes, implementation raises %s' % (label, obs['dec']['exc']))
-            else:
-                if bg.spec_of_model(val) != obs['dec']['spec']:
-                    bad_dec.append('%s: decoded fields differ' % label)
-                if bytes(val[5]).hex() != obs['dec']['reenc']:
-                    bad_dec.append('%s: re-encoding differs: impl %s model %s' % (label, str(obs['dec']['reenc'])[:100], bytes(val[5]).hex()[:100]))
-        # guard flag of the model must tell the streams apart
-        chk.count('model_guard', 'inside' if (m_flags[0] and m_flags[1]) else 'outside')
+            if not (dflags[0] and dflags[1]):
+                bad_dec.append('%s: decoded fields equal %s, re-encoding equal %s (model: %s)' % (
+                    label, dflags[0], dflags[1], [bytes(o).hex()[:100] for o in (ddiag[0] if ddiag else [])]))
+        chk.count('model_guard', 'inside' if (m_wf and m_guard) else 'outside')
     return (bad_enc, bad_dec)
 
 
@@ -634,10 +682,14 @@ def typed_view_suite(chk, cases, shared):
 def malformed_suite(chk):
     ''' Tabulate acceptance, model vs implementation (NOT part of the verdict). '''
     items = gen_malformed(chk)
-    model = yield ['(run_decode %s)' % coq_octets(raw) for (_l, raw) in items]
+    decs = [impl_decode(raw) for (_l, raw) in items]
+    terms = []
+    for ((_l, raw), dec) in zip(items, decs):
+        (db, dr, _kind) = coq_decoded(dict(dec=dec))
+        terms.append('(dec_case %s %s %s)' % (coq_octets(raw), db, dr))
+    model = yield terms
     table = {}
-    for ((label, raw), mval) in zip(items, model):
-        dec = impl_decode(raw)
+    for ((label, raw), dec, (status, dflags, ddiag)) in zip(items, decs, model):
         if not dec['ok']:
             iout = 'reject'
         elif dec['reenc'] == raw.hex():
@@ -646,16 +698,18 @@ def malformed_suite(chk):
             iout = 'accept-then-encode-raises'
         else:
             iout = 'accept-normalise'
-        if mval is None:
+        if status in (0, 3):
             mout = 'reject'
             rel = 'agree' if iout == 'reject' else 'impl-laxer (no model position)'
         else:
-            m_hex = bytes(mval[1][5]).hex()
+            m_hex = bytes(ddiag[0][-1]).hex() if ddiag else dec['reenc']
             mout = 'accept-verbatim' if m_hex == raw.hex() else 'accept-normalise'
             if not dec['ok']:
                 rel = 'MODEL-LAXER'
+            elif status == 2:
+                rel = 'DIFFER (implementation yields values outside the model types)'
             else:
-                rel = 'agree' if (m_hex == dec['reenc'] and bg.spec_of_model(mval[1]) == dec['spec']) else 'DIFFER'
+                rel = 'agree' if (dflags[0] and dflags[1]) else 'DIFFER'
         ent = table.setdefault(label, dict(impl={}, model={}, relation={}))
         ent['impl'][iout + (':' + dec['exc'][6:] if not dec['ok'] else '')] = ent['impl'].get(iout + (':' + dec['exc'][6:] if not dec['ok'] else ''), 0) + 1
         ent['model'][mout] = ent['model'].get(mout, 0) + 1
@@ -746,7 +800,7 @@ def run_all(chk, gens):
     reqs = [next(gen) for gen in gens]
     tick(chk, 'implementation side done, %d model evaluations' % sum(len(req) for req in reqs))
     flat = [term for req in reqs for term in req]
-    res = chk.coq_eval('all', ['Lib.Cbor', 'Lib.Crc', 'Model.Bundle'], flat, '(fun x => x)', chunk=48,
+    res = chk.coq_eval('all', ['Lib.Cbor', 'Lib.Crc', 'Model.Bundle'], flat, '(fun x => x)', chunk=max(16, (len(flat) + 31) // 32),
                        prelude=RUN_CASE + BIG_ENC + BIG_DEC)
     tick(chk, 'model side done')
     outs = []
